@@ -10,7 +10,7 @@ import numpy as np
 from ase import Atoms
 from ase.calculators.calculator import Calculator, all_changes
 from ase.calculators.lj import LennardJones
-from ase.constraints import FixAtoms, FixCom
+from ase.constraints import FixAtoms, FixCom, Hookean
 
 import quansino.mc  # noqa: F401
 from quansino.integrators.displacement import Verlet
@@ -145,6 +145,9 @@ class Sim:
             atoms.set_constraint(FixAtoms(indices=p["fixed"]))
         elif p.get("fixcom"):
             atoms.set_constraint(FixCom())
+        elif p.get("hookean"):
+            # an energy-contributing constraint: atoms.get_potential_energy() includes its term, calc.get_potential_energy(atoms) does not
+            atoms.set_constraint(Hookean(a1=0, a2=1, k=2.0, rt=0.5))
         calc = p.get("calc", "caching")
         atoms.calc = LennardJones(sigma=1.5, epsilon=0.01, rc=4.0) if calc == "lj" else PairPot(calc)
         self.atoms = atoms
@@ -187,12 +190,12 @@ class Sim:
         for ent in p["moves"]:
             mv = build_expr(ent["expr"], self.leaves)
             real = None
-            if p.get("criteria") == "real":
+            if p.get("criteria") in ("real", "both"):
                 for mt, ct in mc.default_criteria.items():
                     if isinstance(leaf_objects(mv)[0], mt):
                         real = ct()
                         break
-            crit = Scripted(self.verdicts if p.get("criteria") != "real" else [], hook=self.at_evaluate, real=real)
+            crit = Scripted(self.verdicts if p.get("criteria") != "real" else [], hook=self.at_evaluate, real=real)   # "both": the real criteria is evaluated, the scripted verdict returned
             mc.add_move(mv, criteria=crit, name=ent["name"], interval=ent.get("interval", 1), probability=ent.get("probability", 1.0),
                         minimum_count=ent.get("minimum_count", 0))
             self.table.append((ent["name"], mv))
@@ -235,6 +238,7 @@ class Sim:
                      deleted_vid=[int(x) for x in ctx._deleted_atoms.arrays.get("vid", [])],
                      particle_delta=int(ctx.particle_delta), N=int(ctx.number_of_exchange_particles))
         s["ctx"] = c
+        s["geom"] = h(atoms.positions.tobytes() + atoms.cell.array.tobytes() + atoms.numbers.tobytes())
         s["leaves"] = [{"labels": [int(x) for x in m.labels] if hasattr(m, "labels") else None,
                         "to_displace": None if getattr(m, "to_displace_labels", None) is None else int(m.to_displace_labels),
                         "to_add": getattr(m, "to_add_atoms", None) is not None,
